@@ -73,7 +73,7 @@ CHECKS["C11"] = {
     "parts": BASE,
     "level": "exploration",
     "technique": "runtime monitor: independent reference template scanner vs cust_with_values / cust_with_expr(s) rendering in both modes, plus inject_parameters(build) == to_string",
-    "rule": "templates assembled from 14 piece kinds (words, numbers, operators, whitespace, commas, parentheses, quoted literals and identifiers containing marks and doubled quotes, delimited placeholders incl. repeated/reordered $n, doubled marks, the other dialect's mark, `$word`, lone `$`): every piece sequence of length <= 4 (quick) / 5 (thorough) x 3 backends, random templates of up to 20 pieces incl. SQLite [bracket] identifiers; values are tagged integers, strings containing marks and quotes, or compound expressions; non-trivial = template has a placeholder or >= 2 piece kinds; distinct = distinct (template, backend)",
+    "rule": "(a) inject_parameters(build(stmt)) == to_string(stmt) for 30k (quick) / 2M (thorough) generated statements of all kinds on the three backends; (b) templates assembled from 14 piece kinds (words, numbers, operators, whitespace, commas, parentheses, quoted literals and identifiers containing marks and doubled quotes, delimited placeholders incl. repeated/reordered $n, doubled marks, the other dialect's mark, `$word`, lone `$`): every piece sequence of length <= 4 (quick) / 5 (thorough) x 3 backends, random templates of up to 20 pieces incl. SQLite [bracket] identifiers; values are tagged integers, strings containing marks and quotes, or compound expressions; non-trivial = template has a placeholder or >= 2 piece kinds; distinct = distinct (template, backend)",
     "assumptions": [
         "placeholders and doubled marks are delimited from adjacent words (on Postgres `abc$$` is an identifier and `$1$$` is ambiguous, so such gluing is outside the domain)",
         "inject_parameters is checked only for statements whose text outside quotes contains no literal mark (a literal `?` in built SQL is indistinguishable from a placeholder by construction)",
@@ -161,4 +161,31 @@ CHECKS["C07"] = {
     "level_text": "Only execution decides meaning: every generated statement runs three ways on the same in-memory database inside a savepoint and the outcomes (accept/reject, rows, RETURNING rows, snapshots of all tables, runtime errors) must be identical. The audit counters report, per clause kind, how often dropping that clause from the reference changes the outcome, i.e. how visible a dropped clause would be.",
     "level_note": "Trusted: the reference renderer (refsql.rs, written from the SQLite grammar) and SQLite 3.40.1. Decides only the statements executed.",
     "min_nontrivial": 500,
+}
+
+CHECKS["C01"] = {
+    "parts": BASE,
+    "level": "exploration",
+    "technique": "runtime monitor: dialect lexer counts/numbers placeholders; a custom SqlWriter records the text/parameter event stream of the build; returned Values are compared with the reading-order values of an independent reference renderer; left-context check per placeholder",
+    "rule": "statements of all four kinds (+ WITH) from the scope-aware generator, nesting depth <= 4 (subqueries in FROM/IN/EXISTS/scalar position, set operations, plain and recursive CTEs, CASE, value lists, LIMIT/OFFSET, window frames with numeric bounds, upsert with conditions, RETURNING), dialect-specific feature sets for MySQL/Postgres/SQLite plus a portable statement rendered on all three, all value types (tagged: every value unique within its statement), builder routes drawn at random; non-trivial = >= 2 values and (nesting depth >= 1 or a MySQL UPDATE..JOIN re-routing); distinct = distinct (parameterised text, backend)",
+    "assumptions": [
+        "the expected order of values is the reading order of the reference rendering (refsql.rs), which repeats an expression's values wherever the dialect's form repeats the expression (ORDER BY FIELD, MySQL NULLS emulation) and includes the two synthetic values of the documented empty-IN encoding",
+        "Order::Field lists and LIKE ESCAPE characters are inlined in both modes by design and never expected in Values",
+    ],
+    "design_ref": "DESIGN.md §5 C01",
+    "level_text": "Each build is checked four ways at the public boundary: placeholder tokens outside quoted text are exactly `?` x n or $1..$n; the text/param event stream observed by a custom SqlWriter reproduces the returned SQL and Values; the Values equal, in order, the values the spec supplied to rendered clauses; and each placeholder follows the same token as in the reference. Exploration over a generator biased to nested shapes is the right level for a counter/ordering property.",
+    "level_note": "Trusted: the reference renderer's clause order per dialect (DESIGN Appendix C/F) and the dialect lexers.",
+    "min_nontrivial": 300,
+}
+
+CHECKS["C02"] = {
+    "parts": BASE,
+    "level": "exploration",
+    "technique": "runtime monitor: lexer-based substitution identity (parameterised text with backend literals spliced in == inline text), pairwise agreement of all public rendering entry points incl. WithQuery route and subquery embedding, idempotence/purity checks, and inline-vs-bound execution on SQLite",
+    "rule": "the C01 statement stream (independent seed) for the three dialects plus SQLite-executable statements; per statement: 5 inline + 5 parameterised trait entry points + the inherent forms, rendered twice; WithQuery vs with_cte for statements with CTEs; every third SELECT embedded as a FROM-subquery; SQLite statements executed in both forms; non-trivial = statement has >= 1 bound value; distinct = distinct (inline text, backend)",
+    "assumptions": ["engine-executed values restricted to those for which the inline literal and the bound value are the same SQLite value (integers, text, blobs, non-integral dyadic doubles, NULL)"],
+    "design_ref": "DESIGN.md §5 C02",
+    "level_text": "The relation between the two rendering modes is checked as a relation: the inline text must be byte-identical to the parameterised text with value_to_string literals substituted at the placeholder tokens, every entry point must agree, a second rendering must be identical, the statement must compare equal to its pre-render clone, and on SQLite both forms must return the same rows and leave the same tables.",
+    "level_note": "Trusted: dialect lexers for locating placeholders; SQLite 3.40.1 for R.rows. Literal correctness itself is C03's subject.",
+    "min_nontrivial": 300,
 }
